@@ -335,6 +335,30 @@ func genAligned(r *rand.Rand, idx int) *streamCase {
 	return c
 }
 
+// genIgnFull: failing reads (ignorable error) that carry as much data as fits fill the receive buffer to the last byte with
+// nothing parsed; the next Read gets an empty slice (a socket answers (0, nil)), the framer parses what it holds and frees the
+// buffer; more of the same, then successful reads to the end.  Block sizes random (the buffer end falls inside a block) or the
+// maximum packet size (the buffer holds a whole number of unparsed blocks).
+func genIgnFull(r *rand.Rand, idx int) *streamCase {
+	c := &streamCase{id: fmt.Sprintf("wfF%d", idx), kind: "wf-ign-full"}
+	buf, ok := probeRecvBufSize()
+	if !ok {
+		buf = 32 * 8800
+	}
+	if idx%2 == 0 {
+		for len(c.stream) < buf+buf/2 {
+			b := mkBlockTotal(r, 6, 8800)
+			c.stream = append(c.stream, b...)
+			c.blocks = append(c.blocks, len(b))
+		}
+	} else {
+		c.stream, c.blocks = genBlocks(r, buf+buf/2+r.Intn(buf), 1500, 150)
+	}
+	c.sched = []schedItem{{k: r.Intn(3000), n: 1}, {ign: true, k: 1 << 20, n: 1 + r.Intn(3)}, {ign: true, k: 1 + r.Intn(9000), n: r.Intn(3)},
+		{ign: true, k: 1 << 20, n: r.Intn(2)}, {k: 1 << 20, n: 4}}
+	return c
+}
+
 func genWellFormed(r *rand.Rand, idx int, long bool) *streamCase {
 	c := &streamCase{id: fmt.Sprintf("wf%d", idx)}
 	if long {
@@ -726,6 +750,9 @@ func TestStreamTrace(t *testing.T) {
 			}
 			for i := 0; i < 2+nlong; i++ {
 				cases = append(cases, genAligned(r, i))
+			}
+			for i := 0; i < 1+nlong/2; i++ {
+				cases = append(cases, genIgnFull(r, i))
 			}
 			for i := 0; i < n; i++ {
 				cases = append(cases, genWellFormed(r, i, false))
